@@ -53,12 +53,24 @@ def main():
     if "--offline" not in demo_cmd:
         demo_cmd += " --offline"
 
+    in_benchmark = "benchmark_manifest.diff" in demo_files
     def put_demo():
+        if in_benchmark:
+            # the demonstration lives in the benchmark crate (it needs the reference implementation)
+            os.makedirs(f"{repo}/benchmark/tests", exist_ok=True)
+            for f in demo_files:
+                if f.endswith(".rs"):
+                    shutil.copy(os.path.join(dest, "demo", f), f"{repo}/benchmark/tests/{f}")
+            sh(f"git -C {repo} apply {dest}/demo/benchmark_manifest.diff")
+            return
         os.makedirs(f"{repo}/falcon-rust/tests", exist_ok=True)
         for f in demo_files:
             shutil.copy(os.path.join(dest, "demo", f), f"{repo}/falcon-rust/tests/{f}")
     def drop_demo():
         shutil.rmtree(f"{repo}/falcon-rust/tests", ignore_errors=True)
+        shutil.rmtree(f"{repo}/benchmark/tests", ignore_errors=True)
+        if in_benchmark:
+            sh(f"git -C {repo} checkout -q -- benchmark/Cargo.toml")
 
     # 1. patch applies, baseline suite passes with the change
     rc, out = sh(f"git -C {repo} apply {dest}/patch.diff")
